@@ -1,16 +1,52 @@
 (* C19 — The DTLCP handshake survives datagram loss, duplication and reordering.
-   Property theorems only (model: Model/DSim.v; proofs: Proofs/DSimProofs.v). *)
-From V Require Import Model.DSim.
+   Property theorems only.  Model: Model/DSim.v (both endpoints, timers, the faulty virtual-time
+   network and the ping/pong application); proofs: Proofs/DSim*.v.  good_run c fs says: the run
+   ends, both endpoints complete, "ping" reaches the server and "pong" the client and only after the
+   respective completion, both completions within `allowed fs` (one retransmission timeout of the
+   schedule 100, 200, 400, ... per fault, plus the injected delays), and when fs = [] no deadline
+   expires before both have completed. *)
+From V Require Import Model.DSim Proofs.DSimProofs.
 
-Lemma all_cfgs_complete : forall c, In c all_cfgs.
-Proof. intros [[] [] []]; simpl; tauto. Qed.
-
-(* with no fault at all both endpoints complete, application data flows in both directions, and
-   no deadline expires before both have completed *)
+(* no fault at all: every configuration (full / abbreviated handshake, with / without client
+   authentication, either order of simultaneous expiries) *)
 Theorem C19_fault_free : forall c, good_run c [] = true.
-Proof.
-  intros c. pose proof (all_cfgs_complete c) as H.
-  assert (A : forallb (fun c => good_run c []) all_cfgs = true) by (vm_compute; reflexivity).
-  rewrite forallb_forall in A. exact (A c H).
-Qed.
+Proof. exact fault_free. Qed.
 Print Assumptions C19_fault_free.
+
+(* every pattern of at most two lost, duplicated or delayed datagrams: ANY datagram of either
+   direction (the index is not bounded), delays of 30, 150, 450 or 1200 ms *)
+Theorem C19_survives_two_faults : forall c fs,
+  (length fs <= 2)%nat -> Forall in_space fs -> good_run c fs = true.
+Proof. exact survives_two_faults. Qed.
+Print Assumptions C19_survives_two_faults.
+
+(* every pattern of at most three (delays of 150 ms) *)
+Theorem C19_survives_three_faults : forall c fs,
+  (length fs <= 3)%nat -> Forall in_space3 fs -> good_run c fs = true.
+Proof. exact survives_three_faults. Qed.
+Print Assumptions C19_survives_three_faults.
+
+(* for EVERY fault script (any number of faults) and any number of steps: *)
+(* application data is never delivered to an endpoint before its handshake completed *)
+Theorem C19_no_early_data : forall fuel c fs,
+  got_before_done false false (rev (trace (fst (run fuel c fs init)))) = false.
+Proof. exact no_early_data. Qed.
+Print Assumptions C19_no_early_data.
+
+(* an endpoint completes only after a datagram carrying the peer's Finished was handed to it *)
+Theorem C19_done_only_after_peer_finished : forall fuel c fs s,
+  done_after_fin s [] false (rev (trace (fst (run fuel c fs init)))) = true.
+Proof. exact done_only_after_peer_finished. Qed.
+Print Assumptions C19_done_only_after_peer_finished.
+
+(* the retransmission timeout only takes the values of the schedule: initial, doubling, capped *)
+Theorem C19_timeouts_follow_schedule : forall fuel c fs,
+  let n := fst (run fuel c fs init) in In (cur (cl n)) schedule /\ In (cur (sv n)) schedule.
+Proof. exact timeouts_follow_schedule. Qed.
+Print Assumptions C19_timeouts_follow_schedule.
+
+(* non-vacuity: a script with two faults that forces retransmissions on both sides *)
+Example C19_example :
+  good_run (mkCfg false true false) [mkFault Sv 1 FDrop 0; mkFault Cl 3 FDelay 450] = true /\
+  in_space (mkFault Cl 3 FDelay 450).
+Proof. split; [vm_compute; reflexivity | unfold in_space, delay_set; cbn; tauto]. Qed.
